@@ -454,12 +454,139 @@ static bool run_fmt(std::string const& fn, Toks& in, Out& impl, Out& ref)
     return false;
 }
 
+// ---------------------------------------------------------------------------------- long double
+// x87 extended values travel as three tokens "sign significand biased-exponent" (canonical
+// encodings only); a NaN prints as the default quiet NaN "0 13835058055282163712 32767".
+static long double from80(Toks& in)
+{
+    u64 s = in.unum();
+    u64 m = in.unum();
+    u64 e = in.unum();
+    unsigned char b[16] = {};
+    std::uint16_t se = static_cast<std::uint16_t>((s != 0 ? 0x8000U : 0U) | (e & 0x7fffU));
+    std::memcpy(b, &m, 8);
+    std::memcpy(b + 8, &se, 2);
+    long double x;
+    std::memcpy(&x, b, sizeof x);
+    volatile long double v = x;
+    return v;
+}
+static void ok80(Out& o, long double x)
+{
+    o.tok("ok");
+    if (x != x) {
+        o.unum(0).unum(0xC000000000000000ULL).unum(32767);
+        return;
+    }
+    unsigned char b[16] = {};
+    std::memcpy(b, &x, sizeof x);
+    u64 m;
+    std::uint16_t se;
+    std::memcpy(&m, b, 8);
+    std::memcpy(&se, b + 8, 2);
+    o.unum((se >> 15) & 1U).unum(m).unum(se & 0x7fffU);
+}
+template <typename T>
+static void ref_lrint80(Out& o, long double x)
+{
+    if (!(x == x) || std::isinf(x)) { return; }
+    long double r = std::nearbyintl(x);
+    if (r >= 9223372036854775808.0L || r < -9223372036854775808.0L) { return; }
+    oki(o, static_cast<long long>(r));
+}
+
+static bool run80(std::string const& fn, Toks& in, Out& impl, Out& ref)
+{
+    using L = long double;
+    struct U { char const* name; L (*impl)(L); L (*ref)(L); };
+    static U const u1[] = {
+        // every long double call of these runs the gcem kernel (no builtin path)
+        {"floor", [](L x) -> L { return etl::floor(x); }, [](L x) -> L { return std::floor(x); }},
+        {"ceil", [](L x) -> L { return etl::ceil(x); }, [](L x) -> L { return std::ceil(x); }},
+        {"trunc", [](L x) -> L { return etl::trunc(x); }, [](L x) -> L { return std::trunc(x); }},
+        {"round", [](L x) -> L { return etl::round(x); }, [](L x) -> L { return std::round(x); }},
+        {"rint", [](L x) -> L { return etl::rint(x); }, [](L x) -> L { return std::rint(x); }},
+        {"rint_fb", [](L x) -> L { return etl::detail::rint_fallback(x); }, [](L x) -> L { return std::rint(x); }},
+        {"fabs", [](L x) -> L { return etl::fabs(x); }, [](L x) -> L { return std::fabs(x); }},
+        {"abs", [](L x) -> L { return etl::abs(x); }, [](L x) -> L { return std::fabs(x); }},
+        {"g_abs", [](L x) -> L { return g::abs(x); }, [](L x) -> L { return std::fabs(x); }},
+    };
+    for (auto const& e : u1) {
+        if (fn == e.name) {
+            L x = from80(in);
+            ubguard(impl, [&](Out& o) { ok80(o, e.impl(x)); });
+            ok80(ref, e.ref(x));
+            return true;
+        }
+    }
+    struct UB { char const* name; bool (*impl)(L); bool (*ref)(L); };
+    static UB const ub[] = {
+        {"isnan", [](L x) -> bool { return etl::isnan(x); }, [](L x) -> bool { return std::isnan(x); }},
+        {"isinf", [](L x) -> bool { return etl::isinf(x); }, [](L x) -> bool { return std::isinf(x); }},
+        {"isfinite", [](L x) -> bool { return etl::isfinite(x); }, [](L x) -> bool { return std::isfinite(x); }},
+        {"signbit", [](L x) -> bool { return etl::signbit(x); }, [](L x) -> bool { return std::signbit(x); }},
+        {"g_is_nan", [](L x) -> bool { return g::internal::is_nan(x); }, [](L x) -> bool { return std::isnan(x); }},
+        {"g_is_inf", [](L x) -> bool { return g::internal::is_inf(x); }, [](L x) -> bool { return std::isinf(x); }},
+        {"g_is_finite", [](L x) -> bool { return g::internal::is_finite(x); }, [](L x) -> bool { return std::isfinite(x); }},
+    };
+    for (auto const& e : ub) {
+        if (fn == e.name) {
+            L x = from80(in);
+            ubguard(impl, [&](Out& o) { okb(o, e.impl(x)); });
+            okb(ref, e.ref(x));
+            return true;
+        }
+    }
+    struct UI { char const* name; long long (*impl)(L); };
+    static UI const ui[] = {
+        {"lrint", [](L x) -> long long { return etl::lrint(x); }},
+        {"llrint", [](L x) -> long long { return etl::llrint(x); }},
+        {"lrint_fb", [](L x) -> long long { return etl::detail::lrint_fallback<long>(x); }},
+        {"llrint_fb", [](L x) -> long long { return etl::detail::lrint_fallback<long long>(x); }},
+    };
+    for (auto const& e : ui) {
+        if (fn == e.name) {
+            L x = from80(in);
+            ubguard(impl, [&](Out& o) { oki(o, e.impl(x)); });
+            ref_lrint80<L>(ref, x);
+            return true;
+        }
+    }
+    if (fn == "g_sgn") {
+        L x = from80(in);
+        oki(impl, g::sgn(x));
+        oki(ref, x > 0 ? 1 : (x < 0 ? -1 : 0));
+        return true;
+    }
+    struct B { char const* name; L (*impl)(L, L); L (*ref)(L, L); };
+    static B const b2[] = {
+        {"copysign", [](L x, L y) -> L { return etl::copysign(x, y); }, [](L x, L y) -> L { return std::copysign(x, y); }},
+        {"fmin", [](L x, L y) -> L { return etl::fmin(x, y); }, ref_fmin<L>},
+        {"fmax", [](L x, L y) -> L { return etl::fmax(x, y); }, ref_fmax<L>},
+        {"fdim", [](L x, L y) -> L { return etl::fdim(x, y); }, [](L x, L y) -> L { return std::fdim(x, y); }},
+        {"fmod", [](L x, L y) -> L { return etl::fmod(x, y); }, [](L x, L y) -> L { return std::fmod(x, y); }},
+        {"remainder", [](L x, L y) -> L { return etl::remainder(x, y); }, [](L x, L y) -> L { return std::remainder(x, y); }},
+        {"midpoint", [](L x, L y) -> L { return etl::midpoint(x, y); }, [](L x, L y) -> L { return std::midpoint(x, y); }},
+    };
+    for (auto const& e : b2) {
+        if (fn == e.name) {
+            L x = from80(in);
+            L y = from80(in);
+            ubguard(impl, [&](Out& o) { ok80(o, e.impl(x, y)); });
+            ok80(ref, e.ref(x, y));
+            return true;
+        }
+    }
+    return false;
+}
+
 bool vh::run_case(std::string const& op, Toks& in, Out& impl, Out& ref)
 {
     // op = <func><32|64>  or  sweep<32|64>
     if (op.size() < 3) { return false; }
     std::string fn  = op.substr(0, op.size() - 2);
     std::string fmt = op.substr(op.size() - 2);
+    if (fmt == "80") { return run80(fn, in, impl, ref); }
     if (fmt != "32" && fmt != "64") { return false; }
     if (fn == "sweep" || fn == "sweepkf") {
         std::string f = in.str();
